@@ -3,10 +3,11 @@
 package checks
 
 import (
-	"os"
 	"bytes"
 	"encoding/hex"
 	"fmt"
+	"os"
+	"sort"
 	"strings"
 	"testing"
 
@@ -246,6 +247,34 @@ func propC08(t *rapid.T) {
 			if ready, _, _ := w.walletStatus(t, victim.id); !ready {
 				t.Fatalf("HARNESS: victim not ready")
 			}
+			// now and then the victim has a few unconfirmed payments of its own at removal time
+			if rapid.IntRange(0, 2).Draw(t, "victimPendingPayments") == 0 {
+				view := w.chainView(t)
+				next := w.node.Height() + 1
+				n := 0
+				for _, c := range view.live() {
+					if n >= 2 {
+						break
+					}
+					if w.ownedByAny(c) || c.Class != clsStd || c.Value < 100000 || !spendableAt(c, next) || !w.coinAllowed(c) || len(w.pendingSpenders(c.Op)) > 0 {
+						continue
+					}
+					tx := wire.NewMsgTx()
+					tx.AddTxIn(sim.Spend(c.Op.Hash, c.Op.Index, requiredSequence(c)))
+					tx.AddTxOut(wire.NewTxOut(c.Value-1000, sim.StdScript(victim.issued[0].Hash)))
+					tx.Payload = []byte{0xc8, byte(n)}
+					if err := w.env.H.VerifProcessTx(tx); err != nil {
+						t.Fatalf("unconfirmed payment to the wallet refused: %v", err)
+					}
+					h := tx.TxHash()
+					w.pending[h], w.everSeen[h] = tx, tx
+					w.logf("mempool pay-victim %s", h.String()[:10])
+					n++
+				}
+				if n == 2 {
+					w.flag("victim-has-two-pending-payments")
+				}
+			}
 			if err := w.env.W.RemoveWallet(victim.id, victim.keys.Pass); err != nil {
 				t.Fatalf("RemoveWallet with the right passphrase: %v", err)
 			}
@@ -447,17 +476,23 @@ func propC08(t *rapid.T) {
 		}
 		w.flag("survivor-builds-and-signs")
 	}
-	// raw residue scan of the closed database, then re-import
-	if err := w.env.StopWallet(); err != nil {
-		t.Fatalf("stop: %v", err)
-	}
-	entries := scanResidue(t, w.env.DBPath, victim, w.wallets, func(tx *wire.MsgTx) bool { return w.txRelevant(tx, false) }, w.journalTail(30))
-	c08.Label("raw-entries-scanned", entries)
-	if err := w.env.Open(false); err != nil {
-		t.Fatalf("reopen: %v", err)
-	}
-	if err := w.env.StartStepped(); err != nil {
-		t.Fatalf("HARNESS: %v", err)
+	// raw residue scan of the closed database, then re-import - or, in half of the cases, re-import into
+	// the instance as it runs (no restart in between: what the removal left in memory is still there)
+	scanNow := rapid.Bool().Draw(t, "scanBeforeReimport")
+	if scanNow {
+		if err := w.env.StopWallet(); err != nil {
+			t.Fatalf("stop: %v", err)
+		}
+		entries := scanResidue(t, w.env.DBPath, victim, w.wallets, func(tx *wire.MsgTx) bool { return w.txRelevant(tx, false) }, w.journalTail(30))
+		c08.Label("raw-entries-scanned", entries)
+		if err := w.env.Open(false); err != nil {
+			t.Fatalf("reopen: %v", err)
+		}
+		if err := w.env.StartStepped(); err != nil {
+			t.Fatalf("HARNESS: %v", err)
+		}
+	} else {
+		w.flag("reimport-without-restart")
 	}
 	hint := uint32(len(victim.issued))
 	if _, err := w.env.W.ImportWalletWithMnemonic(&keystore.WalletParams{Mnemonic: victim.keys.Mnemonic, PrivatePassphrase: []byte(victim.keys.Pass), Remarks: "again", ExternalIndex: hint, AddressGapLimit: 20}); err != nil {
@@ -469,6 +504,65 @@ func propC08(t *rapid.T) {
 	w.syncIssued(t, again)
 	w.auditLedger(t)
 	w.auditHistoriesOpt(t, true)
+	// unconfirmed transactions of the wallet that are announced again after the re-import must be taken
+	// (the removal forgot them; nothing may make the wallet ignore them now)
+	{
+		view := w.chainView(t)
+		mined := map[wire.Hash]bool{}
+		for _, b := range w.node.Chain {
+			for _, tx := range b.MsgBlock().Transactions {
+				mined[tx.TxHash()] = true
+			}
+		}
+		spentInStore := map[wire.OutPoint]bool{}
+		for _, v := range w.readBucket(t, "t", "m") {
+			var ptx wire.MsgTx
+			if len(v) >= 8 && ptx.SetBytes(v[8:], wire.DB) == nil {
+				for _, in := range ptx.TxIn {
+					spentInStore[in.PreviousOutPoint] = true
+				}
+			}
+		}
+		var hashes []wire.Hash
+		for h := range w.everSeen {
+			hashes = append(hashes, h)
+		}
+		sort.Slice(hashes, func(i, j int) bool { return bytes.Compare(hashes[i][:], hashes[j][:]) < 0 })
+		redelivered := 0
+		for _, h := range hashes {
+			tx := w.everSeen[h]
+			if mined[h] || redelivered >= 3 {
+				continue
+			}
+			if _, err := w.env.W.VerifUnminedTx(&h); err == nil {
+				continue // the wallet still has it (a survivor needs it)
+			}
+			pays := false
+			for _, o := range tx.TxOut {
+				_, hh, _, _ := classify(o.PkScript)
+				pays = pays || again.owns[hh]
+			}
+			ok := pays
+			for _, in := range tx.TxIn {
+				c := view.coins[in.PreviousOutPoint]
+				ok = ok && c != nil && !spentInStore[in.PreviousOutPoint] && spendableAt(c, w.node.Height()+1)
+			}
+			if !ok {
+				continue
+			}
+			if err := w.env.H.VerifProcessTx(tx); err != nil {
+				t.Fatalf("unconfirmed transaction %s, valid on the current chain and paying the re-imported wallet, was refused when announced again: %v\n  %s", h.String()[:10], err, w.journalTail(30))
+			}
+			if _, err := w.env.W.VerifUnminedTx(&h); err != nil {
+				t.Fatalf("unconfirmed transaction %s pays the re-imported wallet and was announced again after the re-import, but the wallet did not take it (%v): something of the removed wallet's pending transactions survived the removal\n  %s", h.String()[:10], err, w.journalTail(30))
+			}
+			for _, in := range tx.TxIn {
+				spentInStore[in.PreviousOutPoint] = true
+			}
+			redelivered++
+			w.flag("pending-tx-announced-again-after-reimport")
+		}
+	}
 	flags := w.sortedFlags()
 	nt := changesDuring > 0 || restartsDuring > 0 || w.flags["victim-shares-tx-with-survivor"]
 	c08.Case(hkey(strings.Join(w.journal, "\n")), nt, flags...)
